@@ -281,6 +281,61 @@ fn seq_family(rng: &mut Rng) -> (String, Vec<Vec<u32>>) {
     (text, inputs)
 }
 
+/// alternatives: `S: 'a' X 'd' 'k'…; X: alt1 | alt2 | alt3` where each alternative is 2-3 distinct
+/// tokens, some of them (never only the first of an alternative) marked %avoid_insert; inputs drop the
+/// whole body of X or part of it, so that several equal-cost multi-Insert repairs compete and the
+/// ranking (avoided inserts last, then shorter first) matters
+fn alt_family(rng: &mut Rng) -> (String, Vec<Vec<u32>>) {
+    let nalt = rng.range(2, 3);
+    let tail = rng.range(1, 3);
+    // token numbering by first appearance: 'a' 0, 'd' 1, 'k' 2, then the alternatives' tokens
+    let mut next = 3u32;
+    let mut alts: Vec<Vec<u32>> = Vec::new();
+    for _ in 0..nalt {
+        let len = rng.range(2, 3);
+        alts.push((0..len).map(|_| { next += 1; next - 1 }).collect());
+    }
+    let mut avoid: Vec<u32> = Vec::new();
+    for a in &alts {
+        if rng.chance(2, 3) {
+            // an avoided token that is NOT the first of its alternative
+            avoid.push(a[rng.range(1, a.len() - 1)]);
+        }
+        if rng.chance(1, 5) {
+            avoid.push(a[0]);
+        }
+    }
+    avoid.sort();
+    avoid.dedup();
+    let name = |t: u32| match t { 0 => "'a'".to_string(), 1 => "'d'".to_string(), 2 => "'k'".to_string(), n => format!("'x{}'", n) };
+    let mut text = String::from("%start S\n");
+    if !avoid.is_empty() {
+        text.push_str(&format!("%avoid_insert {}\n", avoid.iter().map(|t| name(*t)).collect::<Vec<_>>().join(" ")));
+    }
+    text.push_str("%%\n");
+    text.push_str(&format!("S: 'a' X 'd'{};\n", " 'k'".repeat(tail)));
+    text.push_str(&format!("X: {};\n", alts.iter().map(|a| a.iter().map(|t| name(*t)).collect::<Vec<_>>().join(" ")).collect::<Vec<_>>().join(" | ")));
+    let mut tailv = vec![1u32];
+    tailv.extend(std::iter::repeat(2).take(tail));
+    let mut inputs = Vec::new();
+    // the whole body missing
+    let mut w = vec![0u32];
+    w.extend(&tailv);
+    inputs.push(w);
+    for a in &alts {
+        // all but the first / all but the last token of an alternative missing
+        let mut w = vec![0u32, a[0]];
+        w.extend(&tailv);
+        inputs.push(w);
+        let mut w = vec![0u32, *a.last().unwrap()];
+        w.extend(&tailv);
+        inputs.push(w);
+    }
+    // 'a' missing as well
+    inputs.push(tailv.clone());
+    (text, inputs)
+}
+
 /// inputs with a long error-free tail (beyond the ranking window of the recoverer)
 fn long_tail_cases() -> Vec<(&'static str, Vec<Vec<u32>>)> {
     // tokens by first appearance: '+' 0, '*' 1, '(' 2, ')' 3, 'n' 4
@@ -364,6 +419,12 @@ pub fn run_prop(a: &Args, prop: &str, pnum: u64) {
             continue;
         }
         let mut rng = Rng::for_case(a.seed, pnum, case as u64 + 1);
+        if case % 8 == 3 {
+            let (t, ws) = alt_family(&mut rng);
+            let refs: Vec<&[u32]> = ws.iter().map(|w| &w[..]).collect();
+            emit(&mut out, &mut worker, &t, &mut rng, a.thorough, "alt_family", prop, Some((&refs, 1)), None);
+            continue;
+        }
         if case % 4 == 1 {
             let (t, ws) = seq_family(&mut rng);
             let refs: Vec<&[u32]> = ws.iter().map(|w| &w[..]).collect();
